@@ -71,7 +71,12 @@ def run(ck):
             ck.case(kind + after, nontrivial=True)
             kinds[kind.split(":")[0]] = kinds.get(kind.split(":")[0], 0) + 1
             if d:
-                ck.violation({"kind": "neutral-edit-changes-output", "edit": kind, "difference": d,
+                fid = None
+                for k in ck.known:
+                    rx = k.get("match", {}).get("difference_regex")
+                    if rx and re.search(rx, unq(d)):
+                        fid = k["id"]
+                ck.violation({"kind": "neutral-edit-changes-output", "finding": fid, "edit": kind, "difference": d,
                               "wgsl_before": unq(before), "wgsl_after": unq(after),
                               "how": "a meaning-neutral edit changed acceptance, the lowered module or a backend's output"},
                              found_input=True)
